@@ -209,13 +209,39 @@ def merge_trace(scs, obs, path):
 
 
 def validate(trace_module, cfg, trace_path, workdir, workers=8, env=None, timeout=1500):
-    """Trace validation by TLC. Returns (verdict lines, tlc result)."""
-    e = {'TRACE': trace_path}
-    if env:
-        e.update(env)
-    res = tlc(trace_module, cfg, workdir, env=e, workers=workers, timeout=timeout)
-    tlc_ok(res, 'trace validation ' + trace_module)
-    return printed(res, 'V'), res
+    """Trace validation by TLC. Returns (verdict lines, tlc result).
+    A large trace is validated in pieces (TLC holds the whole deserialized file in memory: ~50x its size)."""
+    limit = 30 * 1000 * 1000
+    parts = [trace_path]
+    if os.path.getsize(trace_path) > limit:
+        parts, cur, size = [], None, 0
+        with open(trace_path) as f:
+            for line in f:
+                if cur is None or size + len(line) > limit:
+                    if cur:
+                        cur.close()
+                    parts.append('%s.part%d' % (trace_path, len(parts)))
+                    cur, size = open(parts[-1], 'w'), 0
+                cur.write(line)
+                size += len(line)
+        if cur:
+            cur.close()
+    verdicts, total = [], None
+    for part in parts:
+        e = {'TRACE': part}
+        if env:
+            e.update(env)
+        res = tlc(trace_module, cfg, workdir, env=e, workers=workers, timeout=timeout, xmx='12g')
+        tlc_ok(res, 'trace validation ' + trace_module)
+        verdicts += printed(res, 'V')
+        if total is None:
+            total = res
+        else:
+            for k in ('generated', 'distinct', 'wall'):
+                total[k] += res[k]
+        if part != trace_path:
+            os.unlink(part)
+    return verdicts, total
 
 
 def load_known():
